@@ -466,3 +466,14 @@ func (p *Plan) Run(lab *Lab, cfg RunConfig) *Result {
 	cmu.Unlock()
 	return res
 }
+
+// RequestCount is the number of upstream requests recorded so far in the current run.
+func (p *Plan) RequestCount() int {
+	st := p.cur
+	if st == nil {
+		return 0
+	}
+	st.mu.Lock()
+	defer st.mu.Unlock()
+	return len(st.reqs)
+}
